@@ -463,6 +463,10 @@ def check_loop_and_exit_shapes(ctx: Ctx):
     ctx.ob("C11-O1", "R14 GATE", de, "with a target dijkstra_edges hands the query (source, target, successor lists) to dijkstra; without one it runs the all-distances search", okd, "", node=dele[0] if dele else de.node)
     for wname in ("bfs_edges", "dfs_edges"):
         ctx.step(edge_wrapper_adjacency, "C11-O1", ctx.func("bfs", wname), wname)
+    from .sat_common import _need as _need_w
+
+    for wname, gen in (("bfs_edges", "bfs"), ("dfs_edges", "dfs")):
+        ctx.step(_need_w, "C11-O1", "R14 GATE", ctx.func("bfs", wname), f"{wname}: the generic search gets (source, target, successor lists) and a budget no search can exhaust; with a target its Result is handed on unchanged, without one the visited set is returned sorted", [f"result = {gen}(source, target, lambda s: adj[s], max_iter=n_nodes + 1)\n    if target is None:\n        return Result(sorted(result.solution), 0, result.iterations, result.evaluations)\n    return result"])
     rp = ctx.func("utils.helpers", "reconstruct_path")
     wl = [n for n in own_nodes(rp.node) if isinstance(n, ast.While)]
     okr = len(wl) == 1 and [ast.unparse(x) for x in wl[0].body] == ["current = parent[current]", "path.append(current)"]
